@@ -19,7 +19,9 @@ META = {
     "objects, callables, Markup, undefined) must return the value itself (identity) when it is not a string and the "
     "literal value of the string / the string itself otherwise.  Multi node: every sequence of <= 4 (thorough 5) pieces "
     "from {1, space, +, [, ], 'a', comma, {{ x }}, {{ s }}} x 6 contexts must return ast.literal_eval of the concatenated "
-    "text when Python reads it as a literal, the text otherwise.  Every case runs in a sync NativeEnvironment (render), an "
+    "text when Python reads it as a literal, the text otherwise.  Constant family: ~600 single-expression templates "
+    "without variables whose value holds classes reachable from constants (alone, dict values/keys, lists, tuples, "
+    "nested one level) must return the value built in Python, type-exactly.  Every case runs in a sync NativeEnvironment (render), an "
     "async-enabled one (render) and an async-enabled one (render_async under asyncio.run).",
     "note": "Reference = the docstring of native_concat / NativeTemplate.render and docs/nativetypes.rst; leading "
     "space/tab is not stripped before parsing and an empty template gives None (both calibrated from the tree).  "
@@ -271,6 +273,78 @@ def multi_shard(arg):
     return p
 
 
+# ----------------------------------------------------------------------------- constant single-expression templates
+
+# (template spelling, Python value): objects without a literal spelling that are reachable from constants, plus literals
+CONST_ATOMS = [
+    ("true.__class__", bool), ("(1).__class__", int), ("''.__class__", str), ("none.__class__", type(None)),
+    ("(1.5).__class__", float), ("[].__class__", list),
+    ("1", 1), ("'a'", "a"), ("none", None),
+]
+CONST_SHAPES_1 = [
+    ("%s", lambda a: a),
+    ("[%s]", lambda a: [a]),
+    ("(%s,)", lambda a: (a,)),
+    ("{'k': %s}", lambda a: {"k": a}),
+    ("{%s: 1}", lambda a: {a: 1}),
+    ("[[%s]]", lambda a: [[a]]),
+    ("[{'k': %s}]", lambda a: [{"k": a}]),
+    ("{'k': [%s]}", lambda a: {"k": [a]}),
+    ("{'k': {'j': %s}}", lambda a: {"k": {"j": a}}),
+    ("([%s],)", lambda a: ([a],)),
+    ("{'k': (%s,)}", lambda a: {"k": (a,)}),
+    ("({'k': %s},)", lambda a: ({"k": a},)),
+    ("{(%s,): 1}", lambda a: {(a,): 1}),
+]
+CONST_SHAPES_2 = [
+    ("[%s, %s]", lambda a, b: [a, b]),
+    ("(%s, %s)", lambda a, b: (a, b)),
+    ("{'k': %s, 'j': %s}", lambda a, b: {"k": a, "j": b}),
+    ("{%s: %s}", lambda a, b: {a: b}),
+    ("{'k': (%s, %s)}", lambda a, b: {"k": (a, b)}),
+    ("[{'k': %s}, %s]", lambda a, b: [{"k": a}, b]),
+]
+CONST_WRAPPERS = ["{{ E }}", "{{- E -}}", "{% if true %}{{ E }}{% endif %}"]
+
+
+def const_cases():
+    for fmt, build in CONST_SHAPES_1:
+        for sa, va in CONST_ATOMS:
+            yield fmt % sa, build(va), fmt == "%s"
+    for fmt, build in CONST_SHAPES_2:
+        for sa, va in CONST_ATOMS:
+            for sb, vb in CONST_ATOMS:
+                yield fmt % (sa, sb), build(va, vb), False
+
+
+def const_shard(arg):
+    lo, hi = arg
+    p = core.Part()
+    for expr, value, alone in list(const_cases())[lo:hi]:
+        want = literal_or_text(value) if isinstance(value, str) else value
+        for wrapper in CONST_WRAPPERS:
+            src = wrapper.replace("E", expr)
+            for mode in MODES:
+                p.evals += 1
+                out = render(mode, src, {})
+                if out[0] == "exc":
+                    p.sig((mode, "exc", out[1]))
+                    p.violation(f"C34/{mode}-{out[1].lower()}", {
+                        "msg": f"{mode} {src!r}: raised {out[1]}: {out[2]}", "script": SCRIPT % ((mode, src, "{}"),)})
+                    continue
+                got = out[1]
+                p.sig((mode, "const", type(want).__name__, type(got).__name__))
+                ok = canon(got) == canon(want)
+                if ok and alone and isinstance(want, type):
+                    ok = got is want
+                if not ok:
+                    p.violation("C34/const/" + type(want).__name__, {
+                        "msg": f"{mode} {src!r}: got {got!r} ({type(got).__name__}), expected {want!r} "
+                               f"({type(want).__name__})", "script": SCRIPT % ((mode, src, "{}"),)})
+        p.sample({"kind": "constant expression", "source": "{{ " + expr + " }}", "expected": repr(want)}, cap=1)
+    return p
+
+
 def chunks(xs, n):
     k = max(1, (len(xs) + n - 1) // n)
     return [xs[i:i + k] for i in range(0, len(xs), k)]
@@ -289,12 +363,17 @@ def run(ctx: core.Ctx):
         "whitespace, newlines and comments are handled as Python does",
         "CALIBRATED: a template without any output node returns None",
         "a single node that is a str subclass (Markup) counts as a string",
+        "constant family: single-expression templates without context variables whose value holds classes reached from "
+        "constants (true.__class__ ...) alone, as dict values/keys, in lists/tuples, nested one level; reference value "
+        "built in Python, compared type-exactly (identity for a lone class)",
         "a missing name in a single-node template returns the environment's Undefined object for that name",
         "the lexer's removal of one trailing newline (keep_trailing_newline=False) keeps '{{ x }}\\n' a single node",
         "render_async is driven by asyncio.run; render() in an async-enabled environment is called outside any event loop",
     ]
     ctx.pmap(single_shard, [("str", c) for c in chunks(STRING_VALUES, 12)] + [("value", c) for c in chunks(VALUE_EXPRS, 8)]
              + [("missing", ["<x not in context>"])])
+    n_const = len(list(const_cases()))
+    ctx.pmap(const_shard, [(i, min(i + 40, n_const)) for i in range(0, n_const, 40)])
     if ctx.quick:
         shards = [((), maxlen, True)] + [((pc,), maxlen, False) for pc in PIECES]
     else:
@@ -305,5 +384,6 @@ def run(ctx: core.Ctx):
     if ctx.counters.get("multi_cases_expected_literal", 0) < 100:
         raise core.HarnessError("piece alphabet did not bite: almost no literal-valued concatenations")
     ctx.cov["bounds"] = {"pieces": PIECES, "max_pieces": maxlen, "contexts": CONTEXT_EXPRS, "modes": MODES,
-                         "single_shapes": SINGLE_SHAPES, "string_values": len(STRING_VALUES),
+                         "single_shapes": SINGLE_SHAPES, "constant_expressions": n_const,
+                         "constant_wrappers": CONST_WRAPPERS, "string_values": len(STRING_VALUES),
                          "other_values": len(VALUE_EXPRS)}
